@@ -843,7 +843,11 @@ fn gen_query(rng: &mut Rng, i: usize, weights: &[u64; 13]) -> String {
             _ => format!("{} -> scientific", n),
         },
         // definition look-ups
-        3 => (*rng.pick(&["foot", "kilogram", "c", "speed", "pi", "lightyear", "USD", "gallon", "hbar"])).to_string(),
+        3 => (*rng.pick(&[
+            "foot", "kilogram", "c", "speed", "pi", "lightyear", "USD", "gallon", "hbar", "dozen", "million",
+            "percent", "half", "googol", "kilo", "mole",
+        ]))
+        .to_string(),
         // commands
         4 => (*rng.pick(&[
             "units for energy",
